@@ -322,6 +322,12 @@ def rule_r2(ck, prog, f, rule='C05.R2', need_span=True):
         raise AnalysisBroken('Tracer::StartSpan: call of the sampler vanished')
     sink = sinks[0]
     pa = strip_casts(f, sink.n['args'][0])
+    while pa['k'] == 'construct' and pa.get('copymove') and pa.get('args'):
+        pa = strip_casts(f, pa['args'][0])
+    if pa['k'] == 'construct' and 'SpanContext' in (pa.get('c') or '') and len(pa.get('args', [])) >= 2:
+        ck.violation(rule, f, 'sampler-receives-resolved-parent', sink.n,
+                     'the sampler is handed a span context assembled on the spot instead of the resolved parent: parent-based sampling decides on something that is not the parent')
+        return g, rd, sink, None
     if pa['k'] != 'ref':
         direct = {strip_targs(f.nodes[j].get('c', '')).rsplit('::', 1)[-1] for j in list(f.subtree(sink.n['args'][0])) + [sink.n['args'][0]] if f.nodes[j]['k'] == 'call'}
         if direct & {'GetCurrentSpan', 'GetSpan', 'GetContext', 'GetInvalid'}:
